@@ -5,7 +5,7 @@ import ast
 
 from .. import rules
 from ..effects import Effects
-from ..model import Model, norm, call_args
+from ..model import Model, norm, call_args, own_returns
 from ..report import Ob, OK, VIOLATED, ERROR, INFO
 
 META = {
@@ -80,7 +80,7 @@ def rule_result_shape(model: Model):
                       "result mode sizes taken from the operator's row modes / first factor" if ok else
                       (f"the result cores are reshaped with mode sizes from {wrong}; they must be {msrc}" if wrong else
                        f"could not recognise where the result cores take their mode sizes from ({mids})")))
-        rets = [n for n in ast.walk(f.node) if isinstance(n, ast.Return) and n.value is not None]
+        rets = [n for n in own_returns(f.node) if n.value is not None]
         okr = all(isinstance(r.value, ast.Call) and (model.resolve(f.module, r.value.func) in ("torchtt._tt_base.TT",) or isinstance(r.value, ast.BinOp)) or isinstance(r.value, ast.BinOp)
                   for r in rets)
         obs.append(Ob("RESULT-SHAPE", f"{fshort}:RESULT-SHAPE:return", OK if okr else VIOLATED, model.where(f), "return torchtt.TT(y_cores)",
@@ -138,7 +138,7 @@ def rule_result_kind(model: Model):
                             return True
             cur = par
         return False
-    rets = [n for n in ast.walk(f.node) if isinstance(n, ast.Return) and n.value is not None]
+    rets = [n for n in own_returns(f.node) if n.value is not None]
     for i, r in enumerate(rets):
         ok = under_flag(r) or mentions(r.value)
         if not ok and isinstance(r.value, ast.Name):
@@ -177,6 +177,10 @@ def check(model: Model, tier: str):
     from ..normguard import rule_enrich_width
     obs += rule_enrich_width(model, "_amen._amen_mm_python")
     from ..normguard import rule_scale_free
+    from ..normguard import rule_homogeneous
+    obs += rule_homogeneous(model, "_amen._amen_mm_python")
+    obs += rule_homogeneous(model, "_dmrg.dmrg_matvec_python")
+    obs += rule_homogeneous(model, "_dmrg.dmrg_hadamard_python")
     obs += rule_scale_free(model, "_amen._amen_mm_python")
     obs += rule_scale_free(model, "_dmrg.dmrg_matvec_python")
     obs += rule_scale_free(model, "_dmrg.dmrg_hadamard_python")
